@@ -84,7 +84,7 @@ def _pair(fr):
 SCENARIOS = ["region2", "region3", "mesh2", "mesh3", "twomesh", "field2", "field3", "scalar2", "unmapped", "shared"]
 
 
-def random_step(rnd, df, vars_):
+def random_step(rnd, df, vars_, only_rot=False):
     x = rnd.choice(sorted(vars_))
     obj = vars_[x]
     isfield = isinstance(obj, df.Field)
@@ -95,7 +95,7 @@ def random_step(rnd, df, vars_):
     if r < 0.08:
         bads = ["same-axis", "unknown-axis", "float-k"] + ([] if isfield else ["vector-too-long", "vector-of-strings", "factor-too-long", "factor-string", "ref-too-long"])
         return {"x": x, "kind": "malformed", "args": {"bad": rnd.choice(bads)}, "inplace": ip}
-    if isfield or r < 0.45:
+    if isfield or only_rot or r < 0.45:
         a, b = rnd.sample(range(1, nd + 1), 2)
         return {"x": x, "kind": "rotate90", "args": {"a": a, "b": b, "k": rnd.choice([1, 1, 2, 3, -1, -2, -3, 0, 4, 5, -5, 7]), "ref": ref}, "inplace": ip}
     if r < 0.65:
@@ -137,7 +137,7 @@ def _alias_pattern(df, vars_, st, outcome):
     return False
 
 
-def gen_history(df, rnd, tid, inits, emb, maxlen):
+def gen_history(df, rnd, tid, inits, emb, maxlen, only_rot=False, avoid_alias=False):
     sc = rnd.choice(sorted(inits))
     init = inits[sc]
     w = gh.World(df, init["heap"], init["roots"], emb)
@@ -145,7 +145,9 @@ def gen_history(df, rnd, tid, inits, emb, maxlen):
     rec = Recorder(df, emb)
     t = {"id": tid, "sc": sc, "emb": emb.name, "heap0": rec.heap(vars_), "roots0": rec.roots(vars_), "ev": []}
     for _ in range(rnd.randrange(1, maxlen + 1)):
-        st = random_step(rnd, df, vars_)
+        st = random_step(rnd, df, vars_, only_rot)
+        if avoid_alias and _alias_pattern(df, vars_, st, "ok"):
+            continue
         pre, rpre = rec.heap(vars_), rec.roots(vars_)
         obj = vars_[st["x"]]
         try:
@@ -168,10 +170,10 @@ def gen_history(df, rnd, tid, inits, emb, maxlen):
     return t
 
 
-def run_traces(ctx, df, ntraces):
-    """needs the initial heaps of the scenarios: taken from the specification (depth-0 states of C13_d1)"""
+def run_traces(ctx, df, ntraces, module="MC_C13", cfg0="C13_d0.cfg", only_rot=False, prefix="C13", avoid_alias=False):
+    """needs the initial heaps of the scenarios: taken from the specification (depth-0 states)"""
     from .. import tlaval
-    r = ctx.model("MC_C13", "C13_d0.cfg", dump=True, coverage=False)
+    r = ctx.model(module, cfg0, dump=True, coverage=False)
     inits = {}
     for st in ctx.dump_states(r):
         inits[st["hist"][0]["sc"]] = st
@@ -180,7 +182,7 @@ def run_traces(ctx, df, ntraces):
     traces = []
     for tnum in range(ntraces):
         try:
-            traces.append(gen_history(df, rnd, tnum + 1, inits, rnd.choice(embs), 5 if ctx.tier == "quick" else 8))
+            traces.append(gen_history(df, rnd, tnum + 1, inits, rnd.choice(embs), 5 if ctx.tier == "quick" else 8, only_rot, avoid_alias))
         except OffLattice as ex:
             ctx.violation("trace:off-lattice", "a transformed coordinate or value is not the exact affine image (could not be projected)", {"detail": str(ex)})
     traces = [t for t in traces if t["ev"]]
@@ -205,6 +207,8 @@ def run_traces(ctx, df, ntraces):
         elif e["kind"] == "malformed":
             cls = e["args"]["bad"]
         hist = [{k: ev[k] for k in ("x", "kind", "args", "inplace", "outcome")} for ev in t["ev"][:l]]
+        if prefix != "C13":
+            clause = clause.replace("C13_", prefix + "_")
         ctx.violation(f"trace:{clause}/{okind}.{e['kind']}/{form}/{cls}",
                       f"recorded history rejected by C13Trace at step {l}: clause {clause}",
                       {"scenario": t["sc"], "embedding": t["emb"], "history": hist})
